@@ -14,7 +14,8 @@ pub fn ino_of(fd: RawFd) -> u64 {
         if libc::fstat(fd, &mut st) != 0 {
             return 0;
         }
-        st.st_ino as u64
+        // device and inode together: inode numbers of different filesystems (sockfs, shmem, pipefs) can coincide
+        ((st.st_dev as u64) << 40) ^ (st.st_ino as u64)
     }
 }
 
